@@ -17,7 +17,7 @@ def run(ver):
     return ver.finish("exploration",
                       "MC: for 73 shared instantiations and boundary values the two reference semantics (Builtin!EncV from the native impls' documentation, "
                       "Serde!SerEnc from the Serializer's) agree byte for byte. S->I: the common encoding of every such value through both decoders (value, "
-                      "exact consumption), and a wider-head and an indefinite re-framing through both (that value or an error). I->S: per type 50 (quick) / 400 "
+                      "exact consumption), and a wider-head and an indefinite re-framing through both (that value or an error). I->S: per type 50 (quick) / 3000 "
                       "(thorough) random values: native bytes = bridge bytes = reference, each decoded by the other side, and a random re-framing decoded by "
                       "both; distinct = values drawn",
                       checker_cmd="tlc MC_C18 + vh cases + tlc Trace_Serde")
